@@ -161,6 +161,43 @@ Fixpoint get_seq (ch : chain) (cl : client) (ops : list (gop * gobs)) : bool :=
       end
   end.
 
+(* Client.Get without the hook: the surviving key set after pruneSegments is
+   not observed; the ranges of a case have distinct starts, so the prune has no
+   choice and the runner computes it: the keys of the (at most) five highest
+   starts of the map as it is before pruneSegments. *)
+Definition pre_prune {D} (k : key) (c : cache D) : list (key * nat) :=
+  let m1 := prune_maxread (c_max c) (c_heap c) (c_map c) in
+  match find_key k m1 with Some _ => m1 | None => m1 ++ [(k, length (c_heap c))] end.
+Fixpoint ins_key (e : key) (l : list key) : list key :=
+  match l with
+  | [] => [e]
+  | u :: r => if fst u <? fst e then e :: l else u :: ins_key e r
+  end.
+Definition auto_kept {D} (k : key) (c : cache D) : list key :=
+  firstn 5 (fold_left (fun acc e => ins_key (fst e) acc) (pre_prune k c) []).
+Definition with_kept (op : gop) (kept : list key) : gop :=
+  mkGop (g_base op) (g_extra op) (g_traces op) (g_filter op) (g_key op) kept
+        (g_failb op) (g_failx op) (g_failt op).
+Fixpoint get_seq_auto (ch : chain) (cl : client) (ops : list (gop * gobs)) : bool :=
+  match ops with
+  | [] => true
+  | (op0, ob) :: r =>
+      let op := match g_base op0 with
+                | Some b => with_kept op0 (auto_kept (g_key op0) (pick b cl))
+                | None => op0
+                end in
+      match cget ch op cl with
+      | None => false
+      | Some (cl1, res, nb, nx, nt) =>
+          (match res, go_res ob with
+           | GErr, None => true
+           | GOk bs, Some obs => blks_eqb bs obs
+           | _, _ => false
+           end)
+          && (nb =? go_nbase ob) && (nx =? go_nextra ob) && (nt =? go_ntrace ob) && get_seq_auto ch cl1 r
+      end
+  end.
+
 (* ---- concurrent runs: only what the theorems promise is checked ---- *)
 (* segment cache: every returned id is the id of a successful fetch of the
    same key; a fetch result serves at most maxreads + G - 1 reads *)
@@ -211,6 +248,8 @@ Inductive case :=
 | CWs (mx : N) (ops : list (lop * option lobs))
 | CAttach (init : blk) (ops : list aop) (final : blk)
 | CGet (mx : N) (ch : list cblock) (ops : list (gop * gobs))
+| CGetAuto (mx : N) (ch : list cblock) (ops : list (gop * gobs))
+| CBroken      (* the driver could not run part of its streams: never corresponds *)
 | CConcCache (mx : N) (G : N) (fetches : list (key * N * bool)) (rets : list (key * option N))
 | CConcGet (ch : list cblock) (calls : list (option kind * extra * bool * list N * key * option (list blk))).
 
@@ -223,6 +262,8 @@ Definition check (c : case) : bool :=
   | CWs mx ops => ws_seq (head_init mx) ops
   | CAttach b ops final => blk_eqb (a_run b ops) final
   | CGet mx ch ops => get_seq (chain_of ch) (new_client mx) ops
+  | CGetAuto mx ch ops => get_seq_auto (chain_of ch) (new_client mx) ops
+  | CBroken => false
   | CConcCache mx G fetches rets => conc_cache_ok mx G fetches rets
   | CConcGet ch calls => conc_get_ok (chain_of ch) calls
   end.
